@@ -42,7 +42,7 @@ REQUIRED_THEOREMS = ["accept_at_most_once", "recorded_at_most_once", "forged_nev
                      "short_ciphertext_never_accepted", "short_ciphertext_no_trace", "accept_at_most_once_dgram",
                      "notification_fresh_piv", "observe_response_fresh_piv", "forged_request_no_association",
                      "client_association_never_responds", "own_piv_strictly_increasing", "own_nonce_never_reused",
-                     "response_nonce_is_peers"]
+                     "response_nonce_is_peers", "accept_at_most_once_across_restarts", "nothing_below_echo_request"]
 RULE = ("recipient: histories of <= 30 protected messages delivered through coap_oscore_decrypt_pdu to ONE fresh recipient context: "
         "requests (authentic with/without/with wrong Echo, forged with any claimed Partial IV) and, interleaved, responses to an "
         "Observe registration of that endpoint (authentic notifications carrying the peer's sequence number as Partial IV, forged "
@@ -88,7 +88,9 @@ SPEC_DECISIONS = ["D15a a never-accepted authentic request older than the window
                   "D15e responses of the same peer that carry their own Partial IV share the peer's sequence numbers: the window's upper edge is "
                   "the highest PIV accepted in a request or a response; a request whose PIV an accepted response already used may go either way",
                   "D15f 'at most once' is asked of requests only: an authentic response with a PIV accepted before may go either way; a genuine "
-                  "response without PIV, or with a new PIV < 2^40-1 not older than the window, is accepted (unless a PIV >= 2^40-1 was accepted)"]
+                  "response without PIV, or with a new PIV < 2^40-1 not older than the window, is accepted (unless a PIV >= 2^40-1 was accepted)",
+                  "D15g RFC 8613 B.1.2: the Partial IV of the request that completes the Echo exchange is the lower edge of the window: a "
+                  "request below it is rejected (it may have been accepted before the restart), a response below it may go either way"]
 WRAPS = ["coap_send_internal", "oscore_cbor_put_bytes", "cose_encrypt0_encrypt"]
 SEQ_LIMIT = 2 ** 40 - 1
 
@@ -329,6 +331,7 @@ def gen_endp(rng, maxlen=26):
     seq = rng.choice([0, 0, 1, 7, rng.randint(0, 300), 2 ** 24 - 2, SEQ_LIMIT - 40])
     synced = not b12
     epoch, dirty, ops = [], set(), []
+    old = []                     # datagrams of earlier lives (an attacker kept them)
     for _ in range(rng.randint(2, maxlen)):
         c = rng.random()
         t = rng.randrange(ntok)
@@ -346,6 +349,13 @@ def gen_endp(rng, maxlen=26):
             seq += rng.choice([1, 1, 1, 1, 2, 3, rng.randint(1, 70)])
             if rng.random() < 0.5 and t not in dirty:
                 ops.append(("n" if k in "oE" and rng.random() < 0.8 else rng.choice("rrri")) + str(t))
+        elif c < 0.34 and b12 and old and (not epoch or rng.random() < 0.4):
+            d = rng.choice(old)                              # a datagram of an EARLIER life arrives again (Appendix B.1.2 on:
+            if d[0] in "eE":                                 # it must never be accepted; its Echo value is stale by now)
+                d = "w" + d[1:]
+            if d[0] == "w" and not synced:
+                dirty.add(int(d[1:].split(".")[0]))
+            ops.append(d)
         elif c < 0.34 and epoch:
             ops.append(rng.choice(epoch))                    # the network delivers a datagram of this life again
         elif c < 0.44:
@@ -356,6 +366,7 @@ def gen_endp(rng, maxlen=26):
         elif c < 0.68:
             ops.append("c%d" % rng.choice([f, f, f, rng.randint(0, 9), 2 ** 32 - 1]))
             synced = not b12
+            old += epoch
             epoch, dirty = [], set()
         elif t not in dirty:
             ops.append(rng.choice("rrrrnnnni") + str(t))
@@ -468,8 +479,9 @@ WHAT = {"x": "forged request", "a": "authentic request", "e": "authentic request
         "z": "forged response without Partial IV"}
 
 
-def allowed(window, accepted, seen, synced, kind, piv):
-    """accepted: PIVs of accepted requests; seen: PIVs of accepted responses that carried their own Partial IV"""
+def allowed(window, accepted, seen, synced, kind, piv, floor=0):
+    """accepted: PIVs of accepted requests; seen: PIVs of accepted responses that carried their own Partial IV;
+    floor: Partial IV of the request that completed the Appendix B.1.2 exchange = lower edge of the window (D15g)"""
     if kind in "xyz":
         return ["rej"]
     if kind == "r":
@@ -479,7 +491,7 @@ def allowed(window, accepted, seen, synced, kind, piv):
     if kind == "n":
         if piv in allp:
             return BOTH
-        if piv >= SEQ_LIMIT or (allp and max(allp) >= SEQ_LIMIT):
+        if piv >= SEQ_LIMIT or (allp and max(allp) >= SEQ_LIMIT) or piv < floor:
             return BOTH
         return ["acc"] if in_window else BOTH
     if not synced:
@@ -488,7 +500,7 @@ def allowed(window, accepted, seen, synced, kind, piv):
         if kind == "w":
             return ["rej"]
         return BOTH if piv >= SEQ_LIMIT or piv in seen else ["acc"]
-    if piv in accepted:
+    if piv in accepted or piv < floor:
         return ["rej"]
     if piv >= SEQ_LIMIT or piv in seen:
         return BOTH
@@ -522,6 +534,7 @@ def judge_replay(ctx, c):
     if len(it) != len(evs):
         return ("tie", "harness printed %d results for %d events: %s" % (len(it), len(evs), i[:120]))
     accepted, seen, synced = set(), set(), not b12
+    floor = 0
     prev = "1,0,0"
     lock = True
     tie = None
@@ -533,12 +546,15 @@ def judge_replay(ctx, c):
             v, state = it[k].split(":")
         except ValueError:
             return ("tie", "unparsable harness token %r" % it[k])
-        al = allowed(window, accepted, seen, synced, kind, piv)
+        al = allowed(window, accepted, seen, synced, kind, piv, floor)
         cls = out_class(v)
         if cls not in al:
             why = "event %d (%s, PIV %d): implementation %s, allowed %s" % (k + 1, what(ev), piv, v, "/".join(al))
             if cls == "acc" and kind in "aew" and piv in accepted:
                 why += " — request PIV accepted twice"
+            elif cls == "acc" and kind in "aew" and piv < floor:
+                why += (" — below the Partial IV %d of the request that completed the Appendix B.1.2 exchange (lower edge "
+                        "of the window): it may have been accepted before the restart" % floor)
             elif kind not in "xyz" and cls == "rej" and al == ["acc"]:
                 why += " — fresh in-window genuine message rejected (accepted so far: requests %s, responses %s)" % (
                     sorted(accepted)[-6:], sorted(seen)[-6:])
@@ -556,6 +572,8 @@ def judge_replay(ctx, c):
                 seen.add(piv)
             elif kind != "r":
                 accepted.add(piv)
+                if not synced:
+                    floor = piv
                 synced = True
         prev = state
     return tie
